@@ -14,6 +14,8 @@ import BV.OpsDatamatrix
 import BV.OpsPdf417
 import BV.Model.Qr
 import BV.Spec.Qr
+import BV.Model.Aztec
+import BV.Spec.Aztec
 namespace BV.Ops
 open BV BV.Proto
 
@@ -68,6 +70,13 @@ def encodeOp (f : List String) : Option (Res Barcode) :=
     pure (match sch with
       | some s => Model.Qr.encodeWithColor c (level % 256) (mode % 256) s
       | none => Model.Qr.encode c (level % 256) (mode % 256))
+  | ["aztec", c, ecc, layers] => do
+    let c ← fromHex c
+    let ecc ← intField ecc
+    let layers ← intField layers
+    pure (match sch with
+      | some s => Model.Aztec.encodeWithColor c ecc layers s
+      | none => Model.Aztec.encode c ecc layers)
   | ["dm", c] => do
     let c ← fromHex c
     pure (match sch with | some s => Model.Datamatrix.encodeWithColor c s | none => Model.Datamatrix.encode c)
@@ -105,6 +114,31 @@ def miscOp (f : List String) : Option String :=
     pure (match Model.Twooffive.addCheckSum c with
       | some s => "ok str=" ++ toHexField s
       | none => "rej")
+  | ["spec.aztec", w, h, px] => do
+    let w ← natField w
+    let h ← natField h
+    let arr : Array Bool := px.toList.toArray.map (· == '1')
+    if arr.size ≠ w * h then pure "fail bad-picture"
+    else
+      pure (match Spec.Aztec.decode w h (fun x y => arr.getD (y * w + x) false) with
+        | .ok i =>
+          s!"ok content={toHexField i.content} compact={if i.compact then 1 else 0} layers={i.layers} size={i.size} ws={i.wordSize} data={i.dataWords} check={i.checkWords}"
+        | .error e => "fail " ++ e)
+  | ["aztec.min", c, pct] => do
+    -- automatic size, then every explicit request for a physically smaller symbol (mirror of the harness op)
+    let c ← fromHex c
+    let pct ← intField pct
+    match Model.Aztec.encode c pct 0 with
+    | .error .panic => pure "panic"
+    | .error _ => pure "rej"
+    | .ok bc =>
+      let size := bc.w
+      let aztecSize := fun (req : Int) =>
+        if req < 0 then 11 + 4 * req.natAbs else 15 + 4 * req.toNat + 2 * ((2 * req.toNat + 6) / 15)
+      let reqs : List Int := (List.range 37).map (fun (i : Nat) => (i : Int) - 4)
+      let okReqs := reqs.filter (fun req => req != 0 && aztecSize req < size &&
+        (match Model.Aztec.encode c pct req with | .ok _ => true | _ => false))
+      pure s!"ok auto={size} smaller_ok={if okReqs.isEmpty then "-" else String.intercalate "," (okReqs.map toString)}"
   | ["spec.qr", w, h, px] => do
     let w ← natField w
     let h ← natField h
